@@ -70,11 +70,11 @@ def run(P, C, tier):
     C.ob("R2", "kind-table:remote", rtab == want, rem.loc(), "remote table %s" % sorted(rtab))
     C.ob("R2", "kind-table:agree", ltab == rtab, loc.loc(), "local and remote choose the right kind identically")
     rs = rights.can_sites(P, rem)
-    C.ob("R2", "remote-uses-table", all(s["right"] in ("var:required_right", "phi") for s in rs) and len(rs) >= 2, rem.loc(), "every remote decision uses required_right")
+    C.ob("R2", "remote-uses-table", all(s["right"] in ("var:right", "phi") for s in rs) and len(rs) >= 2, rem.loc(), "every remote decision uses required_right")
     # R3
     ldates = {s["date"] for s in ls}
-    C.ob("R3", "local-date", ldates == {"entity_to_mutate.node_to_mutate.date"}, loc.loc(), "local decisions at %s" % sorted(ldates))
-    C.ob("R3", "remote-date", {s["date"] for s in rs} == {"node_to_insert.node.mdate"}, rem.loc(), "remote decisions at %s" % sorted({s["date"] for s in rs}))
+    C.ob("R3", "local-date", ldates == {"‹InsertEntity›.node_to_mutate.date"}, loc.loc(), "local decisions at %s" % sorted(ldates))
+    C.ob("R3", "remote-date", {s["date"] for s in rs} == {"‹NodeToInsert›.node.mdate"}, rem.loc(), "remote decisions at %s" % sorted({s["date"] for s in rs}))
     try:
         cn = P.body("MutationQuery::create_node_to_mutate")
         C.saw(cn)
